@@ -63,7 +63,7 @@ def gen_case(rng):
     # entry that falls back to state["graphs_by_agent"], or graphs_by_agent only
     layout = {a: rng.choice(["agents-dict", "agents-dict", "agents-obj", "record-without-graphs+gba", "gba-only"]) for a in agents}
     return {"agents": agents, "graphs": graphs, "specs": specs, "limit": limit if (limit is None or limit >= 1) else 1, "workers": workers, "layout": layout,
-            "turn_id": rng.choice([1, 1, 7, "x", 0, 0]), "cadence": rng.choice([1, 1, 2]), "overlap": overlap,
+            "turn_id": rng.choice([1, 1, 7, "x", 0, 0]), "cadence": rng.choice([1, 1, 2, 3]), "overlap": overlap,
             # optionally each agent's turn carries its own id (set by the compute phase), ascending in task order and straddling
             # a digit boundary / zero
             "turn_base": rng.choice([None, None, 7, 8, 9, 97, 99, -2, -1])}
@@ -117,7 +117,7 @@ def make_standin(case, trace):
     return run_turn
 
 
-def run_driver(case, parallel, sess):
+def run_driver(case, parallel, sess, direct=False):
     import clematis.engine.orchestrator as orch
     import clematis.engine.orchestrator.core as core
     import clematis.engine.orchestrator.parallel as P
@@ -177,7 +177,14 @@ def run_driver(case, parallel, sess):
             exc = None
             with patched(core.Orchestrator, "run_turn", make_standin(case, trace)), patched(orch, "_run_turn_compute", compute_w), patched(orch, "enable_staging", enable):
                 try:
-                    res = P._run_agents_parallel_batch(ctx, state, tasks)
+                    if direct:
+                        # the plain loop a caller would write without the driver: one ctx per agent, same config objects
+                        res = []
+                        for a_, text_ in tasks:
+                            c_ = NS(turn_id=case["turn_id"], agent_id=a_, cfg=cfg, config=cfg, now_ms=0)
+                            res.append(core.Orchestrator().run_turn(c_, state, text_))
+                    else:
+                        res = P._run_agents_parallel_batch(ctx, state, tasks)
                 except Exception as ex:
                     import traceback
                     exc = f"{type(ex).__name__}: {ex}"
@@ -257,6 +264,19 @@ def check_case(case, sess: Session):
             sess.violation("worker-limit-below-batch-size:agents-silently-dropped", case, {"tasks": len(agents), "workers": case["workers"], "results": len(par_["lines"])})
         return
     sess.count("disjoint_batches_compared")
+    # the driver's own sequential path against a plain loop of turns (the reference the property names)
+    dire = run_driver(case, False, sess, direct=True)
+    if not dire["exc"]:
+        sess.count("direct_loop_references")
+        for fld in ("lines", "w", "version", "logs", "snaps"):
+            if dire[fld] != seq[fld]:
+                detail = None
+                if fld == "logs":
+                    detail = [k for k in sorted(set(dire["logs"]) | set(seq["logs"])) if dire["logs"].get(k) != seq["logs"].get(k)]
+                elif fld == "snaps":
+                    detail = {"direct": sorted(dire["snaps"]), "driver": sorted(seq["snaps"])}
+                sess.violation("driver-sequential-path-differs-from-a-plain-loop:" + fld, case, detail)
+                break
     if par_["lines"] != seq["lines"]:
         sess.violation("results-differ-from-sequential", case, {"par": par_["lines"], "seq": seq["lines"]})
     if par_["w"] != seq["w"] or par_["version"] != seq["version"]:
